@@ -102,7 +102,9 @@ LEVEL_TEXT = ('Machine-checked theorems, for trees, names, elements and virtual 
               'functions equal the str ones on the texts the elements stand for (bytes as UTF-8, objects printed), '
               'resource_path(r, *els) = "/" + quoted names and element texts, malformed bytes = UnicodeDecodeError after the '
               'earlier segments; the memo of _join_path_tuple is transparent unless it is keyed on the raw tuple AND the second '
-              'tuple holds a non-str non-bytes object printing differently -- refuted by the witness 1 / True (repaired finding).')
+              'tuple holds a non-str non-bytes object printing differently -- refuted by the witness 1 / True (repaired finding); '
+              'for the code as it is (no memo: regenerated fact) the second call is history-free unconditionally, and '
+              'resource_path(r, *elements) is the path of the descendant the elements name, to which find_resource leads back.')
 LEVEL_NOTE = ('Trusted: Coq kernel; the translator\'s primitive table and the reference model\'s primitives (validated by '
               'correspondence); ResourceURL.__init__ and the url.py glue hand-modelled and pinned; webob / urllib modelled or '
               'oracle; Python harness.  A semantics-preserving rewrite of a translated function raises no alarm; a semantic '
